@@ -25,7 +25,7 @@ STRATEGY_FLAGS = {  # fuzzy, intron_shifts, skipped_exons, terminal_exons, fake_
 }
 
 
-def event_world(seed):
+def event_world(seed, twins=True):
     """Genes with a micro-exon, a micro-intron and short terminal exons; reads built to trigger every correction event."""
     w = World(seed)
     rng = w.rng
@@ -134,7 +134,8 @@ def event_world(seed):
             pos = pos + 8100 + rng.randint(2500, 3500)
     # twin introns 2-6 bp apart at one boundary (never the first intron of the gene): a read junction between them is within
     # the tolerance of BOTH annotated introns
-    world2.add_twin_loci(w, per_chrom=3)
+    if twins:
+        world2.add_twin_loci(w, per_chrom=3)
     return w
 
 
